@@ -58,7 +58,7 @@ def obs_val(x):
         return [2, int(cx), x.ndim] + list(x.shape) + data
     cx = np.iscomplexobj(x)
     re, im = cpair(x)
-    return [1, int(cx), re, im]
+    return [1, int(cx), int(isinstance(x, np.generic)), re, im]
 
 
 def overlap(a, b):
@@ -303,7 +303,7 @@ class Seq:
 
         def f():
             self.vars[k] = val
-        return self.do('NewScal', f'ONewScal {k} ({zlit(c[0])}, {zlit(c[1])}) {blit(cx)}', f,
+        return self.do('NewScal', f'ONewScal {k} ({zlit(c[0])}, {zlit(c[1])}) {blit(cx)} {blit(flavour == 1)}', f,
                        dict(op='NewScal', k=k, c=list(c), cx=cx, flavour=flavour))
 
     def new_none(self, k):
@@ -373,18 +373,18 @@ class Seq:
 
     # ---- coq text of the whole case
     def coq_case(self):
-        lets = ''.join(f'let x{k} := {ix.coq()} in ' for k, ix in enumerate(self.indices))
+        lets = ''.join(f'let x{k} : slc := {ix.coq()} in ' for k, ix in enumerate(self.indices))
         ws = '[' + '; '.join(f'({i}%nat, {self.coq_path(path)})' for i, path in self.watch) + ']'
         ops = '[' + ';\n    '.join(self.ops) + ']'
         ex = '[' + ';\n    '.join(self.expected) + ']'
-        return f'{lets}\n   check_trace {ws} (world0 {NVARS}) {ops}%nat\n   {ex}'
+        return f'{lets}\n   check_trace {ws} (world0 {NVARS}) [] {ops}\n   {ex}'
 
     def coq_first_bad(self):
-        lets = ''.join(f'let x{k} := {ix.coq()} in ' for k, ix in enumerate(self.indices))
+        lets = ''.join(f'let x{k} : slc := {ix.coq()} in ' for k, ix in enumerate(self.indices))
         ws = '[' + '; '.join(f'({i}%nat, {self.coq_path(path)})' for i, path in self.watch) + ']'
         ops = '[' + ';\n    '.join(self.ops) + ']'
         ex = '[' + ';\n    '.join(self.expected) + ']'
-        return f'{lets}\n   first_bad {ws} (world0 {NVARS}) {ops}%nat\n   {ex} 0%nat'
+        return f'{lets}\n   first_bad {ws} (world0 {NVARS}) [] {ops}\n   {ex} 0%nat'
 
 
 def replay_json(pym, prog):
@@ -449,8 +449,11 @@ def target_info(sq, kind, i, path, x):
 
 def admissible(sq, kind, i, path, x):
     tgt = target_info(sq, kind, i, path, x)
-    if isinstance(tgt, str) or tgt is None or x is None:
+    if isinstance(tgt, str) or tgt is None:
         return True
+    if x is None:
+        # None assigned into an inexact array becomes nan (outside the integer-valued model)
+        return not (kind == 'SetState' and path and np.iscomplexobj(tgt))
     # silent truncation of numpy complex objects into integer arrays is outside the model
     x_np_complex = np.iscomplexobj(x) and not isinstance(x, complex)
     if x_np_complex and not np.iscomplexobj(tgt) and kind != 'AddSens':
@@ -775,18 +778,21 @@ def run(ctx):
     for idx in failing[:10]:
         sq = seqs[idx]
         vals, e2 = vlib.eval_coq(ctx, f'bad{idx}', HEADER, [sq.coq_first_bad()])
-        step = None
+        step, model = None, None
         if vals:
             import re
-            m = re.search(r'Some (\d+)', vals[0])
-            step = int(m.group(1)) if m else None
+            m = re.search(r'Some\s*\((\d+)%nat\s*,(.*)', vals[0], re.S)
+            if m:
+                step, model = int(m.group(1)), m.group(2)[:3000]
         prog = dict(indices=[ix.jsonable() for ix in sq.indices], watch=[[i, p] for i, p in sq.watch],
                     ops=sq.json_ops[:(step + 1) if step is not None else None])
         ctx.violation('correspondence', 'Signal/SignalSlice', 'model == implementation after every operation',
                       sq.kinds[step][0] if step is not None else 'sequence',
                       dict(label=labels[idx], first_bad_step=step, op=sq.ops[step] if step is not None else None,
-                           implementation=sq.expected[step][:1500] if step is not None else None, program=prog),
-                      note='Coq model and implementation differ at this step (program is truncated after it)')
+                           program=prog),
+                      expected=dict(model=model), got=dict(implementation=str(sq.full_expected[step]) if step is not None else None),
+                      note='Coq model and implementation differ at this step (program is truncated after it); '
+                           'observation = (outcome, values of vars ++ watched getters ++ root state/sens, sharing mask)')
     oracle(ctx, pym, more=bool(failing) or not ctx.quick())
 
 
